@@ -144,7 +144,7 @@ Section Lazy.
     - intros e. cbn [ref_eval]. destruct hc; [|discriminate]. destruct (ref_cond flits e c) as [[|]| |]; discriminate.
     - intros e. cbn [ref_eval]. destruct lit; [discriminate|]. destruct (env_get e src); [|discriminate].
       destruct (apply_mods e mods v); try discriminate.
-      destruct (is_nil v0); discriminate.
+      destruct (is_void v0); discriminate.
     - intros e. cbn [ref_eval]. destruct ii; [discriminate|]. destruct (env_get e var); discriminate.
     - intros e. cbn [ref_eval]. destruct (rlookup names); [|discriminate].
       destruct (rinc l e) as [[[o e1] s]|]; [|discriminate]. destruct s; discriminate.
